@@ -3,6 +3,7 @@ package props
 import (
 	"fmt"
 	"os"
+	"strings"
 	"testing"
 	"testing/synctest"
 
@@ -80,9 +81,116 @@ func c07Run(t *testing.T, st *vstat.Stats, p tPlan) *viol {
 	return nil
 }
 
+// c07Orders enumerates every board order of two proposals and the answers of the chosen answerers (n=3, t=2) that
+// respects causality: an answer follows its proposal, the second proposal follows two answers to the first (only then
+// is the proposer's node idle again), a third answer to the first batch may come at any later point, also while the
+// second batch is open.
+func c07Orders() [][]string {
+	subsets := [][]int{{0, 1}, {0, 2}, {1, 2}, {0, 1, 2}}
+	var out [][]string
+	for _, s0 := range subsets {
+		for _, s1 := range subsets {
+			var events []string
+			for _, i := range s0 {
+				events = append(events, fmt.Sprintf("A0:%d", i))
+			}
+			events = append(events, "P1")
+			for _, i := range s1 {
+				events = append(events, fmt.Sprintf("A1:%d", i))
+			}
+			var rec func(done []string, left []string)
+			rec = func(done []string, left []string) {
+				if len(left) == 0 {
+					out = append(out, append([]string{"P0"}, done...))
+					return
+				}
+				a0 := 0
+				p1 := false
+				for _, d := range done {
+					if strings.HasPrefix(d, "A0") {
+						a0++
+					}
+					if d == "P1" {
+						p1 = true
+					}
+				}
+				for k, e := range left {
+					if e == "P1" && a0 < 2 {
+						continue
+					}
+					if strings.HasPrefix(e, "A1") && !p1 {
+						continue
+					}
+					rest := append(append([]string{}, left[:k]...), left[k+1:]...)
+					rec(append(append([]string{}, done...), e), rest)
+				}
+			}
+			rec(nil, events)
+		}
+	}
+	return out
+}
+
 func TestC07(t *testing.T) {
 	st := vstat.New("C07")
 	defer finish(t, st)
+	t.Run("orders", func(t *testing.T) {
+		mk := func(script []string, lag []int) tPlan {
+			p := tPlan{N: 3, T: 2, Script: script, Lagging: lag}
+			for b := 0; b < 2; b++ {
+				tb := tBatch{Proposer: b, Tasks: []sTask{{ID: fmt.Sprintf("b%d-m0", b), File: "f", Payload: []byte(fmt.Sprintf("order payload %d", b))}}}
+				answers := map[int]bool{}
+				for _, s := range script {
+					var bb, i int
+					if strings.HasPrefix(s, "A") {
+						fmt.Sscanf(s, "A%d:%d", &bb, &i)
+						if bb == b {
+							answers[i] = true
+						}
+					}
+				}
+				for i := 0; i < 3; i++ {
+					if !answers[i] {
+						tb.Silent = append(tb.Silent, i)
+					}
+				}
+				p.Batches = append(p.Batches, tb)
+			}
+			return p
+		}
+		if replaying() {
+			var p tPlan
+			if replayFor(t, "orders", &p) {
+				st.Eval()
+				report(t, st, "orders", c07Run(t, st, p), p)
+			}
+			return
+		}
+		orders := c07Orders()
+		st.SetExtra("causal_board_orders_n3_t2_two_batches", len(orders))
+		si, sn := shard()
+		job := 0
+		stride := pick(6, 1) // quick: every 6th order; thorough: all
+		for oi, script := range orders {
+			if oi%stride != 0 {
+				continue
+			}
+			for _, lag := range [][]int{nil, {2}} {
+				job++
+				if job%sn != si {
+					continue
+				}
+				p := mk(script, lag)
+				st.Eval()
+				if report(t, st, "orders", c07Run(t, st, p), p) {
+					return
+				}
+				st.NonTrivial(fmt.Sprintf("order/%v/%v", script, lag))
+				st.Class(fmt.Sprintf("order-policy:lagging=%v", lag))
+			}
+		}
+		st.SetExhaustive(stride == 1)
+	})
 	pairs := [][2]int{{2, 2}, {3, 2}, {3, 3}, {4, 2}, {4, 3}, {5, 3}}
 	if thorough() {
 		pairs = append(pairs, [2]int{5, 5}, [2]int{6, 4}, [2]int{7, 4})
